@@ -73,6 +73,7 @@ type Exec struct {
 	immutKept     bool
 	nimm          int
 	beforeSeen    map[string]bool
+	curPos        token.Pos // position of the instruction being executed (for safety obligations)
 	acqSnap       map[string]*State
 	nacq          int
 	acquiredFirst string
@@ -295,9 +296,102 @@ func (ex *Exec) loopModified(li *loopInfo) *modSet {
 	return ms
 }
 
+// localClosure resolves a called function value to an anonymous function of the function under verification:
+// either the MakeClosure itself, or a load of a local that is assigned exactly once, with a MakeClosure.
+func (ex *Exec) localClosure(v ssa.Value) *ssa.Function {
+	var mc *ssa.MakeClosure
+	switch v := v.(type) {
+	case *ssa.MakeClosure:
+		mc = v
+	case *ssa.Function:
+		if v.Parent() == ex.fn {
+			return v
+		}
+	case *ssa.UnOp:
+		a, ok := v.X.(*ssa.Alloc)
+		if !ok || v.Op != token.MUL {
+			return nil
+		}
+		n := 0
+		if refs := a.Referrers(); refs != nil {
+			for _, r := range *refs {
+				if st, ok := r.(*ssa.Store); ok && st.Addr == a {
+					n++
+					if m, ok := st.Val.(*ssa.MakeClosure); ok {
+						mc = m
+					}
+				} else if _, isLoad := r.(*ssa.UnOp); !isLoad {
+					if _, isDbg := r.(*ssa.DebugRef); !isDbg {
+						return nil // address escapes
+					}
+				}
+			}
+		}
+		if n != 1 {
+			return nil
+		}
+	}
+	if mc == nil {
+		return nil
+	}
+	f, _ := mc.Fn.(*ssa.Function)
+	if f == nil || f.Parent() != ex.fn {
+		return nil
+	}
+	return f
+}
+
+// funcModSet: the syntactic write set of a whole (anonymous) function body; stores through captured variables
+// or anything unresolvable make it "all".
+func (ex *Exec) funcModSet(f *ssa.Function) *modSet {
+	ms := &modSet{locals: map[*ssa.Alloc]bool{}, heaps: map[string]Sort{}}
+	for _, b := range f.Blocks {
+		for _, in := range b.Instrs {
+			switch in := in.(type) {
+			case *ssa.Store:
+				if _, isFV := in.Addr.(*ssa.FreeVar); isFV {
+					ms.all = true
+					continue
+				}
+				ex.rootOfAddr(in.Addr, ms)
+			case *ssa.Alloc:
+				if !ex.isLocalCell(in) {
+					ms.alloc = true
+				}
+			case *ssa.MakeMap, *ssa.MakeChan, *ssa.MakeClosure:
+				ms.alloc = true
+			case *ssa.MapUpdate:
+				ex.mapHeapMods(in.Map.Type(), ms)
+			case *ssa.Send, *ssa.Select, *ssa.Go, *ssa.Defer:
+				ms.all = true
+			case ssa.CallInstruction:
+				ex.callModified(in, ms)
+			}
+		}
+	}
+	for _, af := range f.AnonFuncs {
+		_ = af
+		ms.all = true
+	}
+	return ms
+}
+
 func (ex *Exec) callModified(in ssa.CallInstruction, ms *modSet) {
 	c := in.Common()
 	if _, isGo := in.(*ssa.Go); isGo {
+		return
+	}
+	if cf := ex.localClosure(c.Value); cf != nil && c.StaticCallee() == nil && !c.IsInvoke() {
+		sub := ex.funcModSet(cf)
+		if sub.all {
+			ms.all = true
+		}
+		for h, srt := range sub.heaps {
+			ms.heaps[h] = srt
+		}
+		ms.maps = ms.maps || sub.maps
+		ms.alloc = ms.alloc || sub.alloc
+		ms.pkgs = append(ms.pkgs, sub.pkgs...)
 		return
 	}
 	if b, ok := c.Value.(*ssa.Builtin); ok {
@@ -345,6 +439,15 @@ func (ex *Exec) callModified(in ssa.CallInstruction, ms *modSet) {
 			return
 		}
 		if _, ok := ex.P.model(name); ok {
+			// library models that write: the cell behind their first argument, or the builder contents
+			switch {
+			case strings.HasPrefix(name, "sync/atomic.Store"), strings.HasPrefix(name, "sync/atomic.Add"), strings.HasPrefix(name, "sync/atomic.CompareAndSwap"), strings.HasPrefix(name, "sync/atomic.Swap"):
+				if len(c.Args) > 0 {
+					ex.rootOfAddr(c.Args[0], ms)
+				}
+			case strings.HasPrefix(name, "(*strings.Builder)."):
+				ms.heaps[builderHeap] = ArraySort(SInt, SStr)
+			}
 			return
 		}
 		if ex.P.isPure(name) {
